@@ -375,7 +375,6 @@ func checkDecide(c *Check, p *Prog, name string, d *wfDesc, s, items int64, pref
 		c.Fail("R-WF-DECIDE", name+"/AlphaT", "-", "constant AlphaT not found")
 		return
 	}
-	exits := exitIndex(sum)
 	thr := S.mkOp("call:"+pkgDetect+".Threshold", TInt, S.Int(s))
 	gTM := d.X.globalSym(p.Global(pkgRoot, "TestMethodArr"))
 	var countLoops, qLoops []*LoopS
@@ -442,23 +441,18 @@ func checkDecide(c *Check, p *Prog, name string, d *wfDesc, s, items int64, pref
 		if r.Dead || len(r.Rets) != 2 {
 			continue
 		}
-		lits, isConj := S.literals(r.Guard)
-		if !isConj {
-			unknown = append(unknown, r)
-			continue
-		}
 		var failLoops []*LoopS
 		normalOnly := true
-		for _, lt := range lits {
-			if lt.Atom.K == KSym && lt.Atom.Sym.Kind == SExit && lt.Pos {
-				ex := exits[lt.Atom.Sym]
-				l := loopOfExit(sum, ex)
-				if ex != nil && l != nil && failExit[l] == ex {
-					failLoops = append(failLoops, l)
-					normalOnly = false
-				} else if ex != nil && ex != headExit(l) {
-					normalOnly = false
-				}
+		for _, ex := range posExits(S, sum, r.Guard) {
+			l := loopOfExit(sum, ex)
+			if l == nil {
+				continue
+			}
+			if failExit[l] == ex {
+				failLoops = append(failLoops, l)
+				normalOnly = false
+			} else if ex != headExit(l) {
+				normalOnly = false
 			}
 		}
 		bv, isB := r.Rets[0].BoolVal()
@@ -469,11 +463,7 @@ func checkDecide(c *Check, p *Prog, name string, d *wfDesc, s, items int64, pref
 			named := false
 			nameT := S.mkOp("ld", TString, gTM, S.SymTerm(l.IterEnd), fieldMarker(S, "Name"))
 			if e.Op == "call:fmt.Errorf" || e.Op == "call:errors.New" {
-				for _, a := range e.Args {
-					if a == nameT {
-						named = true
-					}
-				}
+				named = mentions(e, nameT)
 			}
 			c.Expect(named, "R-WF-DECIDE", fmt.Sprintf("%s/error-names-item#%d", name, nFail), wherePos(p, r),
 				"the failing return carries a fresh non-nil error built from TestMethodArr[i].Name with the same i as the failed comparison",
